@@ -106,3 +106,185 @@ pub fn c07_poplar1_agg_param_len() {
     kani::cover!(v.level == u16::MAX);
     core::mem::forget(v);
 }
+
+// ---------------------------------------------------------------------------------------------
+// inner-level (Field64) verifier messages, sketch shares and verifier states: contracts D and E
+// (harnesses with symbolic tag bytes or a symbolic element count in Poplar1VerifierState::decode exhaust CBMC's memory -
+// the `repeat_with().take(n).collect::<Result<Vec<_>,_>>()` decoder - and are therefore not part of the claim)
+
+fn p1() -> Poplar1<crate::vdaf::xof::XofTurboShake128, 32> {
+    Poplar1::new_turboshake128(4)
+}
+
+fn le64(b: &[u8]) -> u64 {
+    u64::from_le_bytes([b[0], b[1], b[2], b[3], b[4], b[5], b[6], b[7]])
+}
+
+const P64: u64 = 18446744069414584321;
+
+fn inner_state(round_two: bool) -> Poplar1VerifierState {
+    let z = <Field64 as FieldElement>::zero();
+    let sketch = if round_two { SketchState::RoundTwo } else { SketchState::RoundOne { A_share: z, B_share: z, is_leader: true } };
+    Poplar1VerifierState(VerifierStateVariant::Inner(VerifierState { sketch, output_share: Vec::new() }))
+}
+
+//@ harness: c07_poplar1_verifier_message_inner
+//@ prop: C07,C08
+//@ tier: quick
+//@ cost: 60
+//@ funcs: Poplar1VerifierMessage::{decode_with_param, encoded_len}, SketchState::decode_sketch
+//@ bounds: inner-level state in round one: every 24-byte string, plus 23 and 25 bytes; round two: the empty string and every 1-byte string
+//@ asserts: round one: accepted iff the three little-endian 64-bit values are below the modulus, as SketchInner with encoded_len 24; other lengths refused; round two: only the empty message (Done, encoded_len 0)
+//@ stubs: alloc::fmt::format
+#[kani::proof]
+#[kani::unwind(10)]
+#[kani::stub(alloc::fmt::format, fmt_stub)]
+pub fn c07_poplar1_verifier_message_inner() {
+    let st1 = inner_state(false);
+    let b: [u8; 25] = kani::any();
+    let r = Poplar1VerifierMessage::get_decoded_with_param(&st1, &b[..24]);
+    assert_eq!(r.is_ok(), le64(&b[0..]) < P64 && le64(&b[8..]) < P64 && le64(&b[16..]) < P64);
+    if let Ok(v) = &r {
+        assert!(matches!(v.0, VerifierMessageVariant::SketchInner(_)));
+        assert_eq!(v.encoded_len(), Some(24));
+    }
+    let short = Poplar1VerifierMessage::get_decoded_with_param(&st1, &b[..23]);
+    let long = Poplar1VerifierMessage::get_decoded_with_param(&st1, &b[..]);
+    assert!(short.is_err() && long.is_err());
+    let st2 = inner_state(true);
+    let r0 = Poplar1VerifierMessage::get_decoded_with_param(&st2, &b[..0]);
+    match &r0 {
+        Ok(v) => {
+            assert!(matches!(v.0, VerifierMessageVariant::Done));
+            assert_eq!(v.encoded_len(), Some(0));
+        }
+        Err(_) => panic!("the empty message is Done in round two"),
+    }
+    let r1 = Poplar1VerifierMessage::get_decoded_with_param(&st2, &b[..1]);
+    assert!(r1.is_err());
+    kani::cover!(r.is_ok());
+    kani::cover!(r.is_err());
+    core::mem::forget((r, short, long, r0, r1, st1, st2));
+}
+
+//@ harness: c07_poplar1_verifier_message_enc
+//@ prop: C07
+//@ tier: quick
+//@ cost: 40
+//@ funcs: Poplar1VerifierMessage::{encode, encoded_len}
+//@ bounds: SketchInner with three arbitrary Field64 elements; Done
+//@ asserts: 24 bytes are produced = encoded_len (element order is decided at the element level by c07_poplar1_verifier_message_inner + the Field64 codec); Done encodes to nothing
+//@ stubs: alloc::fmt::format
+#[kani::proof]
+#[kani::unwind(10)]
+#[kani::stub(alloc::fmt::format, fmt_stub)]
+pub fn c07_poplar1_verifier_message_enc() {
+    let e = [any_f64(), any_f64(), any_f64()];
+    let v = Poplar1VerifierMessage(VerifierMessageVariant::SketchInner(e));
+    let mut out = Vec::with_capacity(24);
+    let r = v.encode(&mut out);
+    assert!(r.is_ok());
+    assert_eq!(out.len(), 24);
+    assert_eq!(v.encoded_len(), Some(24));
+    let d = Poplar1VerifierMessage(VerifierMessageVariant::Done);
+    let mut out0 = Vec::new();
+    let r0 = d.encode(&mut out0);
+    assert!(r0.is_ok() && out0.is_empty() && d.encoded_len() == Some(0));
+    kani::cover!(true);
+    core::mem::forget((r, r0, out, out0));
+}
+
+//@ harness: c07_poplar1_fieldvec_inner
+//@ prop: C07,C08
+//@ tier: quick
+//@ cost: 60
+//@ funcs: Poplar1FieldVec::{decode_with_param(state), encoded_len}, SketchState::decode_sketch_share
+//@ bounds: inner-level state: round one (three elements, every 24-byte string; 23/25 bytes) and round two (one element, every 8-byte string; 7/9 bytes)
+//@ asserts: accepted iff every element is below the modulus; Inner vector of the expected length; encoded_len = input length; other lengths refused
+//@ stubs: alloc::fmt::format
+#[kani::proof]
+#[kani::unwind(10)]
+#[kani::stub(alloc::fmt::format, fmt_stub)]
+pub fn c07_poplar1_fieldvec_inner() {
+    let st1 = inner_state(false);
+    let st2 = inner_state(true);
+    let b: [u8; 25] = kani::any();
+    let r = Poplar1FieldVec::get_decoded_with_param(&st1, &b[..24]);
+    assert_eq!(r.is_ok(), le64(&b[0..]) < P64 && le64(&b[8..]) < P64 && le64(&b[16..]) < P64);
+    if let Ok(v) = &r {
+        assert!(matches!(v, Poplar1FieldVec::Inner(d) if d.len() == 3));
+        assert_eq!(v.encoded_len(), Some(24));
+    }
+    let a = Poplar1FieldVec::get_decoded_with_param(&st1, &b[..23]);
+    let c = Poplar1FieldVec::get_decoded_with_param(&st1, &b[..]);
+    assert!(a.is_err() && c.is_err());
+    let r2 = Poplar1FieldVec::get_decoded_with_param(&st2, &b[..8]);
+    assert_eq!(r2.is_ok(), le64(&b[0..]) < P64);
+    if let Ok(v) = &r2 {
+        assert!(matches!(v, Poplar1FieldVec::Inner(d) if d.len() == 1));
+        assert_eq!(v.encoded_len(), Some(8));
+    }
+    let a2 = Poplar1FieldVec::get_decoded_with_param(&st2, &b[..7]);
+    let c2 = Poplar1FieldVec::get_decoded_with_param(&st2, &b[..9]);
+    assert!(a2.is_err() && c2.is_err());
+    kani::cover!(r.is_ok() && r2.is_ok());
+    kani::cover!(r.is_err());
+    core::mem::forget((r, a, c, r2, a2, c2, st1, st2));
+}
+
+//@ harness: c07_poplar1_verifier_state_elem
+//@ prop: C07,C08
+//@ tier: quick
+//@ cost: 60
+//@ funcs: VerifierState::<Field64>::decode_with_param (element canonicity)
+//@ bounds: 14-byte strings with concrete inner / round-two tags and count 1, the 8 element bytes symbolic
+//@ asserts: accepted iff the element is below the modulus
+//@ stubs: alloc::fmt::format
+#[kani::proof]
+#[kani::unwind(10)]
+#[kani::stub(alloc::fmt::format, fmt_stub)]
+pub fn c07_poplar1_verifier_state_elem() {
+    let vdaf = p1();
+    let e: [u8; 8] = kani::any();
+    let b: [u8; 14] = [0, 1, 0, 0, 0, 1, e[0], e[1], e[2], e[3], e[4], e[5], e[6], e[7]];
+    let r = Poplar1VerifierState::get_decoded_with_param(&(&vdaf, 0usize), &b[..]);
+    assert_eq!(r.is_ok(), le64(&e[..]) < P64);
+    kani::cover!(r.is_ok());
+    kani::cover!(r.is_err());
+    core::mem::forget(r);
+}
+
+//@ harness: c07_poplar1_verifier_state_enc
+//@ prop: C07
+//@ tier: quick
+//@ cost: 60
+//@ funcs: Poplar1VerifierState::{encode, encoded_len} (inner level)
+//@ bounds: round-one state (arbitrary A/B shares) and round-two state, each with one arbitrary output-share element
+//@ asserts: level tag 0, sketch tag, be32 count at the specified offsets; length = encoded_len (30 resp. 14)
+//@ stubs: alloc::fmt::format
+#[kani::proof]
+#[kani::unwind(10)]
+#[kani::stub(alloc::fmt::format, fmt_stub)]
+pub fn c07_poplar1_verifier_state_enc() {
+    let (a, b, o) = (any_f64(), any_f64(), any_f64());
+    let v1 = Poplar1VerifierState(VerifierStateVariant::Inner(VerifierState {
+        sketch: SketchState::RoundOne { A_share: a, B_share: b, is_leader: kani::any() },
+        output_share: vec![o],
+    }));
+    let mut out = Vec::with_capacity(30);
+    let r = v1.encode(&mut out);
+    assert!(r.is_ok());
+    assert_eq!(out.len(), 30);
+    assert_eq!(v1.encoded_len(), Some(30));
+    assert!(out[0] == 0 && out[1] == 0);
+    assert!(out[18] == 0 && out[19] == 0 && out[20] == 0 && out[21] == 1);
+    let v2 = Poplar1VerifierState(VerifierStateVariant::Inner(VerifierState { sketch: SketchState::RoundTwo, output_share: vec![o] }));
+    let mut out2 = Vec::with_capacity(14);
+    let r2 = v2.encode(&mut out2);
+    assert!(r2.is_ok());
+    assert_eq!(out2.len(), 14);
+    assert_eq!(v2.encoded_len(), Some(14));
+    assert!(out2[0] == 0 && out2[1] == 1 && out2[5] == 1);
+    kani::cover!(true);
+    core::mem::forget((r, r2, out, out2, v1, v2));
+}
